@@ -119,6 +119,28 @@ AndBits(mem, M, x, y, n, values) ==
 WriteBit(mem, M, r, c, v) ==
   Put(mem, Addr(M, r, c \div W), IF v = 1 THEN mem[Addr(M, r, c \div W)] \cup {c % W} ELSE mem[Addr(M, r, c \div W)] \ {c % W})
 
+(* mzd_copy_row(B, i, A, j): B at least as wide as A; A's last word merged under A's mask *)
+CopyRowW(mem, B, i, A, j) ==
+  LET width == Min({Width(B), Width(A)}) - 1
+      mask == LeftMask(A.ncols % W)
+      m1 == ForWords(mem, 0, width - 1, LAMBDA m, k : Put(m, Addr(B, i, k), m[Addr(A, j, k)]))
+  IN Put(m1, Addr(B, i, width), AndW(m1[Addr(B, i, width)], NotW(mask)) \cup AndW(m1[Addr(A, j, width)], mask))
+
+(* mzd_extract_u / mzd_extract_l into a supplied k x k destination (k = min(nrows, ncols)): the leading square by  *)
+(* mzd_submatrix, then the columns left of the diagonal (whole words, then mzd_clear_bits) resp. right of it        *)
+(* (mzd_row_clear_offset) are cleared                                                                                 *)
+ExtractUW(mem, U, A, MzdSubmatrixOp(_, _, _, _, _, _, _)) ==
+  LET k == Min({A.nrows, A.ncols})
+      m0 == MzdSubmatrixOp(mem, U, A, 0, 0, k, k)
+      rowfix(m, i) ==
+        LET m1 == ForWords(m, 0, (i \div W) - 1, LAMBDA mm, j : Put(mm, Addr(U, i, j), {}))
+        IN IF i % W # 0 THEN ClearBits(m1, U, i, (i \div W) * W, i % W) ELSE m1
+  IN ForWords(m0, 1, k - 1, rowfix)
+ExtractLW(mem, L, A, MzdSubmatrixOp(_, _, _, _, _, _, _)) ==
+  LET k == Min({A.nrows, A.ncols})
+      m0 == MzdSubmatrixOp(mem, L, A, 0, 0, k, k)
+  IN ForWords(m0, 0, k - 2, LAMBDA m, i : RowClearOffset(m, L, i, i + 1))
+
 (* mzd_concat(C, A, B): words of A copied (last one under A's mask), then B bit by bit *)
 RECURSIVE ConcatBits(_, _, _, _, _, _)
 ConcatBits(mem, C, A, B, i, j) ==
